@@ -1,4 +1,8 @@
+import importlib.util, os
+_pc = importlib.util.spec_from_file_location("pool_common", os.path.join(os.path.dirname(os.path.dirname(os.path.abspath(__file__))), "pool_common.py")); PC = importlib.util.module_from_spec(_pc); _pc.loader.exec_module(PC)
 MOD = "consensus::pool::finality_tracker::kani_c08"
+POOL_BUILD = {"overlays": PC.OVERLAYS + [{"src": "C08/kani_c08_pool.rs", "dest": "src/consensus/pool/kani_c08_pool.rs", "decl_in": PC.POOL, "decl": "mod kani_c08_pool;"}],
+              "redirects": PC.REDIRECTS, "coll_cap": 4}
 FT = "src/consensus/pool/finality_tracker.rs"
 COLL = {"src": "verif_coll.rs", "dest": "src/verif_coll.rs", "decl_in": "src/lib.rs", "decl": "pub mod verif_coll;"}
 
@@ -45,5 +49,9 @@ SPEC = {
     "harnesses": [
         {"name": "c08_base", "path": MOD, "tiers": Q, "role": "base case", "functions": ["FinalityTracker::default"], "bounds": "none", "covers": 1},
         _certs(3, 2, 1, Q), _certs(2, 3, 1, T), _certs(3, 3, 2, T),
+        {"name": "c08_pool_window", "path": "consensus::pool::kani_c08_pool", "tiers": Q, "role": "pool acceptance window", "build": POOL_BUILD, "covers": 4,
+         "stubs": [PC.SIGN_STUB, "log::max_level", "consensus::pool::PoolImpl::add_valid_cert"], "timeout": {"quick": 900, "thorough": 1800}, "mem_gb": 14,
+         "functions": ["PoolImpl::add_cert (up to the hand-over to add_valid_cert)", "PoolImpl::{prune,first_unpruned_slot,finalized_slot,slot_state}", "FinalityTracker::{mark_fast_finalized,mark_finalized,mark_notarized,first_unpruned_slot,highest_finalized_slot}", "SlotState::add_cert", "ParentReadyTracker::prune"],
+         "bounds": "fresh pool, 2 validators; slot 1 holds any subset of {notarization, finalization} certificates, slot 2 possibly a fast-finalization certificate (told to the real tracker, then prune); one new certificate of kind notarization | skip | finalization for a slot ranging over all of u64; add_valid_cert cut by a recording stub; pool.rs compiled without its async plumbing (see pool_common.py)"},
     ],
 }
